@@ -24,8 +24,14 @@
    ancestor_block_complete, level_cover), so a merge round that answers None refutes a
    supermajority on the next level (merge_round_none) and the loop stops exactly at the ghost
    (merge_loop_max; fuel: the depth of a block is at most size t).
-   NOT proved here: that Insert preserves desc_complete / desc_sound (they hold in the initial
-   graph and in find_ghost_example), and the case current = Some c (the [force] constraint). *)
+   The descendant-list invariant is PROVED for all three paths of Insert (desc_ok: g_desc lists
+   exactly the child vote-nodes; insert_existing_desc_ok, insert_append_desc_ok,
+   insert_branch_desc_ok), so in every state of GraphInvBranch.reach_full FindGHOST from the base is
+   the specification's ghost of the phase (reach_full_find_ghost_is_spec_ghost), for tolerant vote
+   sets over blocks of the tree.
+   NOT proved here: the case current = Some c (the [force] constraint of the restart from the
+   previous ghost) beyond soundness; reach_full keeps its premise branch_complete (completeness of
+   findContainingNodes) on the introduceBranch step. *)
 From Coq Require Import List Arith Lia Bool NArith.
 From Grandpa Require Import Tree Votes RoundSpec RoundProofs.
 From C20 Require Import Model ProofsPossible Graph GraphInv GraphInvAppend GraphProofs GraphTracker
@@ -659,6 +665,28 @@ Proof.
   apply (merge_point_max k' e' E'); [|exact KF]. now rewrite <- (node_cnd k' e' E').
 Qed.
 
+(* the restart from a previous ghost c that has a vote-node: the same search from c *)
+Theorem find_ghost_max_node heads c ec b : eget c G = Some ec ->
+  find_ghost t lbl G heads (Some c) cnd = Some b -> b = g.
+Proof.
+  intros EC H. unfold find_ghost, find_containing in H. rewrite EC in H. cbv beta iota zeta in H. rewrite EC in H.
+  destruct (cnd (g_cum ec)) eqn:C; cbn [negb] in H; [|discriminate].
+  destruct (descend t (Datatypes.S (length G)) G cnd c ec None) as [[k' e'] f'] eqn:D.
+  injection H as <-.
+  assert (AB : (above c < Datatypes.S (length G))%nat) by (pose proof (above_le c); lia).
+  destruct (descend_max _ _ _ _ _ _ EC C AB D) as [E' [C' [-> KF]]].
+  apply (merge_point_max k' e' E'); [|exact KF]. now rewrite <- (node_cnd k' e' E').
+Qed.
+
+Lemma find_ghost_node_none heads c ec : eget c G = Some ec ->
+  (find_ghost t lbl G heads (Some c) cnd = None <-> has_supermajority t ws S c = false).
+Proof.
+  intros EC. unfold find_ghost, find_containing. rewrite EC. cbv beta iota zeta. rewrite EC.
+  rewrite (node_cnd c ec EC). destruct (has_supermajority t ws S c); cbn [negb].
+  - destruct (descend t (Datatypes.S (length G)) G cnd c ec None) as [[k' e'] f']. split; discriminate.
+  - split; reflexivity.
+Qed.
+
 End Sound.
 
 (* FindGHOST from the base IS the specification's ghost *)
@@ -675,6 +703,28 @@ Proof.
   destruct (ghost t ws S) as [g|] eqn:GH; [|now apply NI].
   destruct (find_ghost t lbl G heads None (cond_ph ws eqv ph)) as [b|] eqn:F.
   - f_equal. exact (find_ghost_max t lbl ws G ins ph S eqv CO W TR CI IN DC TP TOL IT g GH DS heads b F).
+  - pose proof (proj1 NI eq_refl). discriminate.
+Qed.
+
+(* ... and from a previous ghost c that has a vote-node: the specification's ghost if c still has a
+   supermajority (c is then an ancestor of the ghost), None otherwise *)
+Theorem find_ghost_from_node_is_spec_ghost t lbl ws G ins ph S eqv heads c ec :
+  chain_inv t G -> cum_ok t G ins -> anc_wf t G -> tracker_ok t ph S eqv ins ->
+  (forall p, In p ins -> exists e, eget (fst p) G = Some e) ->
+  desc_complete G -> desc_sound G ->
+  (0 < total ws)%N -> tolerant ws S = true -> (forall x, In x S -> in_tree t (vblock x)) ->
+  eget c G = Some ec ->
+  find_ghost t lbl G heads (Some c) (cond_ph ws eqv ph) =
+  if has_supermajority t ws S c then ghost t ws S else None.
+Proof.
+  intros CI CO W TR IN DC DS TP TOL IT EC.
+  pose proof (find_ghost_node_none t lbl ws G ins ph S eqv CO TR heads c ec EC) as NI. unfold cnd in NI.
+  destruct (has_supermajority t ws S c) eqn:SC; [|now apply NI].
+  destruct (supermajority_has_vote t lbl ws S c TP TOL SC) as [x [I A]].
+  assert (IB : in_tree t c) by (eapply anc_in_tree; [exact A|now apply IT]).
+  destruct (ghost_some_of t ws S c IB SC) as [g GH]. rewrite GH.
+  destruct (find_ghost t lbl G heads (Some c) (cond_ph ws eqv ph)) as [b|] eqn:F.
+  - f_equal. exact (find_ghost_max_node t lbl ws G ins ph S eqv CO W TR CI IN DC TP TOL IT g GH DS heads c ec b EC F).
   - pose proof (proj1 NI eq_refl). discriminate.
 Qed.
 
@@ -722,6 +772,342 @@ Qed.
 
 
 
+(* ======================= the descendant lists ======================= *)
+(* g_desc lists exactly the child vote-nodes *)
+Definition desc_ok (G : entries) : Prop :=
+  forall x e, eget x G = Some e -> forall y,
+    In y (g_desc e) <-> exists ey, eget y G = Some ey /\ ancestor_node ey = Some x.
+
+Lemma desc_ok_complete G : desc_ok G -> desc_complete G.
+Proof. intros D x e y ey EX EY AN. apply (D x e EX y). eauto. Qed.
+
+Lemma desc_ok_sound G : desc_ok G -> desc_sound G.
+Proof.
+  intros D x e y ey EX IY EY. apply (D x e EX y) in IY. destruct IY as [ey' [EY' AN]]. congruence.
+Qed.
+
+Lemma init_desc_ok : desc_ok (r_G rinit).
+Proof.
+  intros x e EX y. cbn in EX. destruct x; [|discriminate]. injection EX as <-. cbn [g_desc].
+  split; [intros []|]. intros [ey [EY AN]]. cbn in EY. destruct y; [|discriminate]. injection EY as <-.
+  discriminate.
+Qed.
+
+Lemma desc_ok_same G G' :
+  (forall y, option_map g_anc (eget y G') = option_map g_anc (eget y G)) ->
+  (forall y, option_map g_desc (eget y G') = option_map g_desc (eget y G)) ->
+  desc_ok G -> desc_ok G'.
+Proof.
+  intros HA HD D x e' E' y. pose proof (HD x) as HX. rewrite E' in HX.
+  destruct (eget x G) as [e|] eqn:E; [|discriminate]. cbn in HX. injection HX as HX. rewrite HX.
+  rewrite (D x e E y). pose proof (HA y) as HY.
+  split; intros [ey [EY AN]]; rewrite EY in HY.
+  - destruct (eget y G') as [ey'|]; [|discriminate]. cbn in HY. injection HY as HY.
+    exists ey'. split; [reflexivity|]. unfold ancestor_node in *. now rewrite HY.
+  - destruct (eget y G) as [ey0|]; [|discriminate]. cbn in HY. injection HY as HY.
+    exists ey0. split; [reflexivity|]. unfold ancestor_node in *. now rewrite <- HY.
+Qed.
+
+Section Desc.
+Variable t : tree.
+Variable lbl : block -> nat.
+
+Lemma propagate_g_desc : forall fuel G x b y,
+  option_map g_desc (eget y (propagate fuel G x b)) = option_map g_desc (eget y G).
+Proof.
+  induction fuel as [|f IH]; intros G x b y; [reflexivity|]. cbn [propagate].
+  destruct (eget x G) as [e|] eqn:E; [|reflexivity].
+  assert (S1 : option_map g_desc (eget y (eset x (mkE (g_anc e) (g_desc e) (b :: g_cum e)) G)) =
+               option_map g_desc (eget y G)).
+  { rewrite eget_eset. destruct (Nat.eqb_spec y x) as [->|]; [now rewrite E|reflexivity]. }
+  destruct (ancestor_node e); [now rewrite IH|exact S1].
+Qed.
+
+Lemma propagate_desc_ok fuel G x b : desc_ok G -> desc_ok (propagate fuel G x b).
+Proof. apply desc_ok_same; intro y; [apply propagate_g_anc|apply propagate_g_desc]. Qed.
+
+(* Insert of a vote for a block that has a vote-node *)
+Lemma insert_existing_desc_ok G heads h b e0 : eget h G = Some e0 -> desc_ok G ->
+  desc_ok (fst (insert t lbl G heads h b)).
+Proof. intros EH D. unfold insert, find_containing. rewrite EH. cbn [fst]. now apply propagate_desc_ok. Qed.
+
+(* Insert through append *)
+Lemma insert_append_desc_ok G heads h b : chain_inv t G -> (exists e0, eget 0%nat G = Some e0) ->
+  eget h G = None -> find_containing t lbl G heads h = Some [] -> desc_ok G ->
+  desc_ok (fst (insert t lbl G heads h b)).
+Proof.
+  intros CI BASE EH FC D. unfold insert. rewrite FC. unfold append_node.
+  assert (HNZ : h <> 0%nat) by (intro E; subst h; destruct BASE; congruence).
+  assert (TL : tl (chain t h) = chain t (parent t h)) by (rewrite (chain_nz t h HNZ); reflexivity).
+  rewrite TL. destruct (first_entry_chain t G BASE (parent t h) 0) as [i [a [F [[ea EA] [AQ M]]]]].
+  rewrite F, EA. cbn [fst].
+  destruct (first_entry_index G _ _ _ _ F) as [_ NTH]. rewrite Nat.sub_0_r in NTH.
+  set (a' := mkE (g_anc ea) (g_desc ea ++ [h]) (g_cum ea)).
+  set (ne := mkE (firstn (S i) (chain t (parent t h))) [] []).
+  apply propagate_desc_ok.
+  set (G1 := eset h ne (eset a a' G)).
+  assert (ANE : a <> h) by (intro E; subst a; congruence).
+  assert (G1get : forall y, eget y G1 = if (y =? h)%nat then Some ne
+                                       else if (y =? a)%nat then Some a' else eget y G).
+  { intro y. unfold G1. now rewrite !eget_eset. }
+  assert (ANne : ancestor_node ne = Some a).
+  { unfold ancestor_node. cbn [g_anc ne]. exact (last_opt_firstn _ _ _ NTH). }
+  assert (RH : forall x, (exists ey, eget h G1 = Some ey /\ ancestor_node ey = Some x) <-> x = a).
+  { intro x. rewrite G1get, Nat.eqb_refl. split.
+    - intros [ey [E AN]]. injection E as <-. congruence.
+    - intros ->. eauto. }
+  assert (RO : forall y x, y <> h ->
+            ((exists ey, eget y G1 = Some ey /\ ancestor_node ey = Some x) <->
+             (exists ey0, eget y G = Some ey0 /\ ancestor_node ey0 = Some x))).
+  { intros y x NY. rewrite G1get. destruct (Nat.eqb_spec y h); [congruence|].
+    destruct (Nat.eqb_spec y a) as [->|]; [|tauto]. rewrite EA. split.
+    - intros [ey [E AN]]. injection E as <-. exists ea. split; [reflexivity|exact AN].
+    - intros [ey [E AN]]. injection E as <-. exists a'. split; [reflexivity|exact AN]. }
+  assert (NOH : forall x e, eget x G = Some e -> ~ In h (g_desc e)).
+  { intros x e E I. apply (D x e E h) in I. destruct I as [ey [EY _]]. congruence. }
+  intros x e E y. rewrite G1get in E. destruct (Nat.eq_dec y h) as [->|NY].
+  - rewrite RH. destruct (Nat.eqb_spec x h) as [->|NXH].
+    + injection E as <-. cbn [g_desc ne]. split; [intros []|]. intro X. congruence.
+    + destruct (Nat.eqb_spec x a) as [->|NXA].
+      * injection E as <-. cbn [g_desc a']. split; [reflexivity|]. intros _. apply in_or_app. right. now left.
+      * split; [|congruence]. intro I. exfalso. exact (NOH x e E I).
+  - rewrite (RO y x NY). destruct (Nat.eqb_spec x h) as [->|NXH].
+    + injection E as <-. cbn [g_desc ne]. split; [intros []|]. intros [ey0 [EY AN]]. exfalso.
+      pose proof (CI y ey0 EY) as C. rewrite AN in C. destruct C as [[pe PE] _]. congruence.
+    + destruct (Nat.eqb_spec x a) as [->|NXA].
+      * injection E as <-. cbn [g_desc a']. rewrite <- (D a ea EA y). rewrite in_app_iff. cbn [In]. intuition congruence.
+      * exact (D x e E y).
+Qed.
+
+Lemma reach_desc_ok G heads eqv S ins : reach t lbl G heads eqv S ins -> desc_ok G.
+Proof.
+  induction 1 as [|G heads eqv S ins ph x e G' heads' R IH L NV EX INS
+                   |G heads eqv S ins ph x G' heads' R IH L NV EN FC NB INS
+                   |G heads eqv S ins ph x a R IH L FA NS
+                   |G heads eqv S ins ph x R IH L H]; try exact IH.
+  - exact init_desc_ok.
+  - pose proof (insert_existing_desc_ok G heads (vblock x) (2 * vvoter x + ph) e EX IH) as P. now rewrite INS in P.
+  - destruct (reach_good t lbl G heads eqv S ins R) as [CI [_ [BASE _]]].
+    pose proof (insert_append_desc_ok G heads (vblock x) (2 * vvoter x + ph) CI BASE EN FC IH) as P.
+    now rewrite INS in P.
+Qed.
+
+(* in every state reached through the existing-node and append paths of Insert, FindGHOST from the
+   base is the specification's ghost of the phase *)
+Theorem reach_find_ghost_is_spec_ghost ws G heads eqv S ins ph :
+  reach t lbl G heads eqv S ins -> (ph < 2)%nat ->
+  (0 < total ws)%N -> tolerant ws (S ph) = true -> (forall x, In x (S ph) -> in_tree t (vblock x)) ->
+  find_ghost t lbl G heads None (cond_ph ws eqv ph) = ghost t ws (S ph).
+Proof.
+  intros R L TP TOL IT. pose proof (reach_desc_ok G heads eqv S ins R) as D.
+  destruct (reach_full_invariants t lbl G heads eqv S ins (reach_sub t lbl G heads eqv S ins R))
+    as [CI [CO [BASE [IN [TR W]]]]].
+  apply (find_ghost_is_spec_ghost t lbl ws G ins ph (S ph) eqv heads); auto.
+  - now apply desc_ok_complete.
+  - now apply desc_ok_sound.
+Qed.
+
+End Desc.
+
+Section DescBranch.
+Variable t : tree.
+Variable lbl : block -> nat.
+
+(* the descendant list of the node introduceBranch accumulates *)
+Lemma fold_desc h : forall ds G0 ne0 prev0, (forall d, In d ds -> exists e, eget d G0 = Some e) ->
+  exists ne, snd (fold_left (bstep t h) ds (G0, Some (ne0, prev0))) = Some (ne, prev0) /\
+    g_desc ne = g_desc ne0 ++ ds.
+Proof.
+  induction ds as [|d r IH]; intros G0 ne0 prev0 H.
+  - exists ne0. cbn. split; [reflexivity|]. now rewrite app_nil_r.
+  - destruct (H d (or_introl eq_refl)) as [e E]. cbn [fold_left].
+    rewrite (bstep_some t h G0 (Some (ne0, prev0)) d e E).
+    destruct (IH (eset d (trunc t h d e) G0) (mkE (g_anc ne0) (g_desc ne0 ++ [d]) (g_cum ne0 ++ g_cum e)) prev0)
+      as [ne [F GD]].
+    + intros d' I. rewrite eget_eset. destruct (Nat.eqb_spec d' d); [eauto|]. apply H. now right.
+    + exists ne. split; [exact F|]. rewrite GD. cbn [g_desc]. now rewrite <- app_assoc.
+Qed.
+
+(* the descendant lists of the graph introduceBranch returns *)
+Lemma branch_shape_desc G ds h d1 r e1 : ds = d1 :: r -> eget h G = None ->
+  (forall d, In d ds -> exists e, eget d G = Some e) -> eget d1 G = Some e1 ->
+  exists ne, eget h (introduce_branch t G ds h) = Some ne /\ g_desc ne = ds /\
+    (forall y ey, y <> h -> eget y (introduce_branch t G ds h) = Some ey ->
+       exists ey0, eget y G = Some ey0 /\
+         g_desc ey = if match ancestor_node e1 with Some p => (y =? p)%nat | None => false end
+                     then filter (fun d => negb (memb d ds)) (g_desc ey0) ++ [h] else g_desc ey0).
+Proof.
+  intros DS EH ALL E1. rewrite introduce_branch_eq.
+  destruct (fold_left (bstep t h) ds (G, None)) as [G1 m1] eqn:F.
+  assert (GE : forall y, eget y G1 =
+            match eget y G with Some e => Some (if memb y ds then trunc t h y e else e) | None => None end).
+  { intro y. rewrite <- (fold_fst t h ds G None ALL y). now rewrite F. }
+  assert (M : exists ne, m1 = Some (ne, ancestor_node e1) /\ g_desc ne = ds).
+  { rewrite DS in F. cbn [fold_left] in F. rewrite (bstep_some t h G None d1 e1 E1) in F.
+    destruct (fold_desc h r (eset d1 (trunc t h d1 e1) G)
+                (mkE (skipn (number t d1 - number t h) (g_anc e1)) ([] ++ [d1]) ([] ++ g_cum e1))
+                (ancestor_node e1)) as [ne [S1 GD]].
+    { intros d' I. rewrite eget_eset. destruct (Nat.eqb_spec d' d1); [eauto|]. apply ALL. rewrite DS. now right. }
+    rewrite F in S1. cbn [snd] in S1. exists ne. split; [exact S1|]. rewrite GD, DS. reflexivity. }
+  destruct M as [ne [-> GDne]]. cbv beta iota zeta.
+  exists ne. split; [now rewrite eget_eset, Nat.eqb_refl|]. split; [exact GDne|].
+  intros y ey NY H. rewrite eget_eset in H. destruct (Nat.eqb_spec y h); [congruence|].
+  assert (GD1 : forall z ez, eget z G1 = Some ez -> exists ez0, eget z G = Some ez0 /\ g_desc ez = g_desc ez0).
+  { intros z ez Z. rewrite GE in Z. destruct (eget z G) as [ez0|]; [|discriminate]. injection Z as <-.
+    exists ez0. split; [reflexivity|]. now destruct (memb z ds). }
+  destruct (ancestor_node e1) as [p1|].
+  - destruct (eget p1 G1) as [pe|] eqn:EP.
+    + rewrite eget_eset in H. destruct (Nat.eqb_spec y p1) as [->|NP].
+      * injection H as <-. destruct (GD1 p1 pe EP) as [pe0 [P0 GP]]. exists pe0. split; [exact P0|].
+        cbn [g_desc]. now rewrite GDne, GP.
+      * destruct (GD1 y ey H) as [ey0 [Y0 GY]]. eauto.
+    + destruct (Nat.eqb_spec y p1) as [->|NP]; [congruence|]. destruct (GD1 y ey H) as [ey0 [Y0 GY]]. eauto.
+  - destruct (GD1 y ey H) as [ey0 [Y0 GY]]. eauto.
+Qed.
+
+(* Insert through introduceBranch *)
+Lemma insert_branch_desc_ok G heads h b ds : chain_inv t G ->
+  eget h G = None -> find_containing t lbl G heads h = Some ds -> ds <> [] ->
+  branch_sound t G ds h -> desc_ok G ->
+  desc_ok (fst (insert t lbl G heads h b)).
+Proof.
+  intros CI EH FC NE SND D. unfold insert. rewrite FC.
+  destruct ds as [|d1 r] eqn:DS; [congruence|]. cbv iota. rewrite <- DS in *. clear NE. cbn [fst].
+  apply propagate_desc_ok.
+  assert (I1 : In d1 ds) by (rewrite DS; now left).
+  assert (ALL : forall d, In d ds -> exists e, eget d G = Some e).
+  { intros d I. destruct (SND d I) as [e [E _]]. eauto. }
+  destruct (SND d1 I1) as [e1 [E1 [IDA1 [AH1 AP1]]]].
+  destruct (branch_shape t G ds h d1 r e1 DS EH ALL E1) as [ne [G2h [GAne [_ [OLD KEEP]]]]].
+  destruct (branch_shape_desc G ds h d1 r e1 DS EH ALL E1) as [ne' [G2h' [GDne OLDD]]].
+  set (G2 := introduce_branch t G ds h) in *.
+  rewrite G2h in G2h'. injection G2h' as <-.
+  destruct (ida_true _ _ _ _ IDA1) as [LT1 NTH1].
+  destruct (last_opt_some (g_anc e1)) as [p1 AN1].
+  { intro X. rewrite X in NTH1. destruct (number t d1 - number t h - 1)%nat; discriminate. }
+  fold (ancestor_node e1) in AN1. pose proof (AP1 p1 AN1) as AP.
+  pose proof (CI d1 e1 E1) as C1. rewrite AN1 in C1. destruct C1 as [[pe1 PE1] [A1 [N1 M1]]].
+  assert (NP1 : p1 <> h) by (intro X; subst p1; congruence).
+  assert (ANne : ancestor_node ne = Some p1).
+  { unfold ancestor_node. rewrite GAne.
+    replace (number t d1 - number t h)%nat with (S (number t d1 - number t h - 1)) by lia.
+    apply (last_opt_skipn _ _ h p1 NTH1); [exact AN1|congruence]. }
+  rewrite AN1 in OLDD.
+  (* the nodes of ds: parent vote-node before (p1) and after (h) *)
+  assert (NOTH : forall y, In y ds -> y <> h).
+  { intros y I E. subst y. destruct (ALL h I). congruence. }
+  assert (NEWANC : forall y ey, In y ds -> eget y G2 = Some ey -> ancestor_node ey = Some h).
+  { intros y ey I Y. destruct (OLD y ey (NOTH y I) Y) as [ey0 [Y0 [_ GA]]].
+    assert (MY : memb y ds = true) by now apply memb_In. rewrite MY in GA.
+    destruct (SND y I) as [e' [E' [IDA _]]]. rewrite Y0 in E'. injection E' as <-.
+    destruct (ida_true _ _ _ _ IDA) as [LT NTH]. unfold ancestor_node. rewrite GA.
+    replace (number t y - number t h)%nat with (S (number t y - number t h - 1)) by lia.
+    exact (last_opt_firstn _ _ _ NTH). }
+  assert (OLDANC : forall y ey0, In y ds -> eget y G = Some ey0 -> ancestor_node ey0 = Some p1).
+  { intros y ey0 I Y0. destruct (SND y I) as [e' [E' [IDA [AHY APY]]]]. rewrite Y0 in E'. injection E' as <-.
+    destruct (ida_true _ _ _ _ IDA) as [LT NTH].
+    destruct (last_opt_some (g_anc ey0)) as [py ANY].
+    { intro X. rewrite X in NTH. destruct (number t y - number t h - 1)%nat; discriminate. }
+    fold (ancestor_node ey0) in ANY. rewrite ANY. f_equal.
+    pose proof (APY py ANY) as APH.
+    pose proof (CI y ey0 Y0) as CY. rewrite ANY in CY. destruct CY as [[pye PYE] [AY [NY MY]]].
+    apply (anc_antisym t).
+    - (* py above d1 *)
+      apply (M1 py pye PYE); [exact (anc_trans t py h d1 APH AH1)|].
+      intro X. subst py. assert (h = d1) by (now apply (anc_antisym t)). subst h. congruence.
+    - apply (MY p1 pe1 PE1); [exact (anc_trans t p1 h y AP AHY)|].
+      intro X. subst p1. assert (h = y) by (now apply (anc_antisym t)). subst h. congruence. }
+  assert (OLDG : forall y ey, y <> h -> eget y G2 = Some ey -> memb y ds = false ->
+            exists ey0, eget y G = Some ey0 /\ ancestor_node ey = ancestor_node ey0).
+  { intros y ey NY Y MB. destruct (OLD y ey NY Y) as [ey0 [Y0 [_ GA]]]. rewrite MB in GA.
+    exists ey0. split; [exact Y0|]. unfold ancestor_node. now rewrite GA. }
+  assert (NEWG : forall y ey0, eget y G = Some ey0 -> memb y ds = false ->
+            exists ey, eget y G2 = Some ey /\ ancestor_node ey = ancestor_node ey0).
+  { intros y ey0 Y0 MB. destruct (KEEP y ey0 Y0) as [ey Y]. exists ey. split; [exact Y|].
+    assert (NY : y <> h) by (intro X; subst y; congruence).
+    destruct (OLDG y ey NY Y MB) as [ey0' [Y0' AN]]. congruence. }
+  assert (NOH : forall x e, eget x G = Some e -> ~ In h (g_desc e)).
+  { intros x e E I. apply (D x e E h) in I. destruct I as [ey [EY _]]. congruence. }
+  intros x e E y. destruct (Nat.eq_dec x h) as [->|NXH].
+  - (* the new node *)
+    rewrite G2h in E. injection E as <-. rewrite GDne. split.
+    + intro I. destruct (ALL y I) as [ey0 Y0]. destruct (KEEP y ey0 Y0) as [ey Y]. exists ey. split; [exact Y|].
+      exact (NEWANC y ey I Y).
+    + intros [ey [Y AN]]. destruct (Nat.eq_dec y h) as [->|NY]; [congruence|].
+      destruct (memb y ds) eqn:MB; [now apply memb_In|exfalso].
+      destruct (OLDG y ey NY Y MB) as [ey0 [Y0 AN0]]. rewrite AN in AN0.
+      pose proof (CI y ey0 Y0) as C. rewrite <- AN0 in C. destruct C as [[pe PE] _]. congruence.
+  - destruct (OLDD x e NXH E) as [e0 [X0 GD]]. destruct (Nat.eqb_spec x p1) as [->|NXP].
+    + (* the parent vote-node of the new node *)
+      rewrite X0 in PE1. injection PE1 as <-. rewrite GD. rewrite in_app_iff, filter_In. cbn [In].
+      destruct (Nat.eq_dec y h) as [->|NY].
+      * split; [intros _; eauto|]. intros _. right. now left.
+      * split.
+        -- intros [[I NM]|[X|[]]]; [|congruence]. apply negb_true_iff in NM.
+           apply (D p1 e0 X0 y) in I. destruct I as [ey0 [Y0 AN0]].
+           destruct (NEWG y ey0 Y0 NM) as [ey [Y AN]]. exists ey. split; [exact Y|congruence].
+        -- intros [ey [Y AN]]. left. destruct (memb y ds) eqn:MB.
+           ++ apply memb_In in MB. rewrite (NEWANC y ey MB Y) in AN. congruence.
+           ++ split; [|reflexivity]. destruct (OLDG y ey NY Y MB) as [ey0 [Y0 AN0]].
+              apply (D p1 e0 X0 y). exists ey0. split; [exact Y0|congruence].
+    + rewrite GD. rewrite (D x e0 X0 y). split.
+      * intros [ey0 [Y0 AN0]]. destruct (memb y ds) eqn:MB.
+        -- apply memb_In in MB. rewrite (OLDANC y ey0 MB Y0) in AN0. congruence.
+        -- destruct (NEWG y ey0 Y0 MB) as [ey [Y AN]]. exists ey. split; [exact Y|congruence].
+      * intros [ey [Y AN]]. destruct (Nat.eq_dec y h) as [->|NY]; [congruence|].
+        destruct (memb y ds) eqn:MB.
+        -- apply memb_In in MB. rewrite (NEWANC y ey MB Y) in AN. congruence.
+        -- destruct (OLDG y ey NY Y MB) as [ey0 [Y0 AN0]]. exists ey0. split; [exact Y0|congruence].
+Qed.
+
+Lemma reach_full_desc_ok G heads eqv S ins : reach_full t lbl G heads eqv S ins -> desc_ok G.
+Proof.
+  induction 1 as [|G heads eqv S ins ph x e G' heads' R IH L NV EX INS
+                   |G heads eqv S ins ph x G' heads' R IH L NV EN FC NB INS
+                   |G heads eqv S ins ph x ds G' heads' R IH L NV EN FC NE CMP INS
+                   |G heads eqv S ins ph x a R IH L FA NS
+                   |G heads eqv S ins ph x R IH L H]; try exact IH.
+  - exact init_desc_ok.
+  - pose proof (insert_existing_desc_ok t lbl G heads (vblock x) (2 * vvoter x + ph) e EX IH) as P. now rewrite INS in P.
+  - destruct (reach_full_invariants t lbl G heads eqv S ins R) as [CI [_ [BASE _]]].
+    pose proof (insert_append_desc_ok t lbl G heads (vblock x) (2 * vvoter x + ph) CI BASE EN FC IH) as P.
+    now rewrite INS in P.
+  - destruct (reach_full_invariants t lbl G heads eqv S ins R) as [CI [_ [_ [_ [_ W]]]]].
+    pose proof (insert_branch_desc_ok G heads (vblock x) (2 * vvoter x + ph) ds CI EN FC NE
+                  (branch_sound_of_wf t lbl G heads _ ds W FC) IH) as P.
+    now rewrite INS in P.
+Qed.
+
+(* in EVERY reachable state (existing-node, append and introduceBranch paths of Insert),
+   FindGHOST from the base is the specification's ghost of the phase *)
+Theorem reach_full_find_ghost_is_spec_ghost ws G heads eqv S ins ph :
+  reach_full t lbl G heads eqv S ins -> (ph < 2)%nat ->
+  (0 < total ws)%N -> tolerant ws (S ph) = true -> (forall x, In x (S ph) -> in_tree t (vblock x)) ->
+  find_ghost t lbl G heads None (cond_ph ws eqv ph) = ghost t ws (S ph).
+Proof.
+  intros R L TP TOL IT. pose proof (reach_full_desc_ok G heads eqv S ins R) as D.
+  destruct (reach_full_invariants t lbl G heads eqv S ins R) as [CI [CO [BASE [IN [TR W]]]]].
+  apply (find_ghost_is_spec_ghost t lbl ws G ins ph (S ph) eqv heads); auto.
+  - now apply desc_ok_complete.
+  - now apply desc_ok_sound.
+Qed.
+
+Theorem reach_full_find_ghost_from_node ws G heads eqv S ins ph c ec :
+  reach_full t lbl G heads eqv S ins -> (ph < 2)%nat ->
+  (0 < total ws)%N -> tolerant ws (S ph) = true -> (forall x, In x (S ph) -> in_tree t (vblock x)) ->
+  eget c G = Some ec ->
+  find_ghost t lbl G heads (Some c) (cond_ph ws eqv ph) =
+  if has_supermajority t ws (S ph) c then ghost t ws (S ph) else None.
+Proof.
+  intros R L TP TOL IT EC. pose proof (reach_full_desc_ok G heads eqv S ins R) as D.
+  destruct (reach_full_invariants t lbl G heads eqv S ins R) as [CI [CO [BASE [IN [TR W]]]]].
+  apply (find_ghost_from_node_is_spec_ghost t lbl ws G ins ph (S ph) eqv heads c ec); auto.
+  - now apply desc_ok_complete.
+  - now apply desc_ok_sound.
+Qed.
+
+End DescBranch.
+
 (* ---------------------------------------------------------------------------------------- *)
 (* Statements (closed; the lead references them from Properties.v) *)
 Theorem C20_graph_find_ghost_sound : forall t lbl ws G ins ph S eqv heads current b,
@@ -763,3 +1149,25 @@ Theorem C20_graph_find_ghost_is_spec_ghost : forall t lbl ws G ins ph S eqv head
   find_ghost t lbl G heads None (cond_ph ws eqv ph) = ghost t ws S.
 Proof. exact find_ghost_is_spec_ghost. Qed.
 Print Assumptions C20_graph_find_ghost_is_spec_ghost.
+
+(* Insert keeps "g_desc lists exactly the child vote-nodes" on all three paths *)
+Theorem C20_graph_reach_full_desc_ok : forall t lbl G heads eqv S ins,
+  reach_full t lbl G heads eqv S ins -> desc_ok G.
+Proof. exact reach_full_desc_ok. Qed.
+Print Assumptions C20_graph_reach_full_desc_ok.
+
+Theorem C20_graph_reach_full_find_ghost_is_spec_ghost : forall t lbl ws G heads eqv S ins ph,
+  reach_full t lbl G heads eqv S ins -> (ph < 2)%nat ->
+  (0 < total ws)%N -> tolerant ws (S ph) = true -> (forall x, In x (S ph) -> in_tree t (vblock x)) ->
+  find_ghost t lbl G heads None (cond_ph ws eqv ph) = ghost t ws (S ph).
+Proof. exact reach_full_find_ghost_is_spec_ghost. Qed.
+Print Assumptions C20_graph_reach_full_find_ghost_is_spec_ghost.
+
+Theorem C20_graph_reach_full_find_ghost_from_node : forall t lbl ws G heads eqv S ins ph c ec,
+  reach_full t lbl G heads eqv S ins -> (ph < 2)%nat ->
+  (0 < total ws)%N -> tolerant ws (S ph) = true -> (forall x, In x (S ph) -> in_tree t (vblock x)) ->
+  eget c G = Some ec ->
+  find_ghost t lbl G heads (Some c) (cond_ph ws eqv ph) =
+  if has_supermajority t ws (S ph) c then ghost t ws (S ph) else None.
+Proof. exact reach_full_find_ghost_from_node. Qed.
+Print Assumptions C20_graph_reach_full_find_ghost_from_node.
